@@ -113,6 +113,22 @@ def handle (args : List String) : String :=
       let some g := fOfBits? g | return "bad-op"
       let idx := List.range (j2 + 1)
       return cxListStr (idx.flatMap fun i => idx.map fun k => su2Irrep j2 a b g i k)
+  | ["irrepcs", j2, a, b, g] => Id.run do
+      -- the same matrix from the half-angle data, and as Sym^{j2} of angle_to_su2 (both must agree with get_su2_irrep)
+      let some j2 := j2.toNat? | return "bad-op"
+      if j2 > 40 then return "bad-op"
+      let some a := fOfBits? a | return "bad-op"
+      let some b := fOfBits? b | return "bad-op"
+      let some g := fOfBits? g | return "bad-op"
+      let sq : Nat → Float := fun n => Float.sqrt n.toFloat
+      let cb := Float.cos (half * b); let sb := Float.sin (half * b)
+      let p : Cx Float := ⟨Float.cos (half * (a + g)), Float.sin (half * (a + g))⟩
+      let m : Cx Float := ⟨Float.cos (half * (a - g)), Float.sin (half * (a - g))⟩
+      let U := angleToSU2cs cb sb p m
+      let idx := List.range (j2 + 1)
+      let e1 := idx.flatMap fun i => idx.map fun k => irrepCS sq Nat.toFloat j2 cb sb p m i k
+      let e2 := idx.flatMap fun i => idx.map fun k => symD sq Nat.toFloat j2 (U 0 0) (U 0 1) (U 1 0) (U 1 1) i k
+      return s!"{cxListStr e1} {cxListStr e2}"
   | ["rot2", m, n] => Id.run do
       let some m := m.toInt? | return "bad-op"
       let some n := n.toInt? | return "bad-op"
